@@ -242,7 +242,9 @@ def main(mod, tier, seed, replay=None):
     bat_fail = battery["failures"] if battery else []
     if battery and battery.get("error"):
         undecided_msgs.append("battery: " + battery["error"])
-    canaries = run_canaries(mod, tier, seed) if not failed else []
+    def _known_ob(rid):
+        return any(k.get("status") == "known" and k.get("kind", "obligation") == "obligation" and k["match"] in rid for k in known)
+    canaries = run_canaries(mod, tier, seed) if not [r for r in failed if not _known_ob(r["id"])] else []
     for c in canaries:
         if c.get("skipped"):
             undecided_msgs.append(f"canary `{c['canary']}` not applicable ({c['skipped']})")
